@@ -334,7 +334,7 @@ impl Transform {
     pub fn transform_pt_with_error(&self, pt: Point3D) -> (Point3D, Point3D) {
         let ret = self.transform_pt(pt);
         let (x, y, z) = (pt.x, pt.y, pt.z);
-        let err_ret = mul4x4_abs(&self.elements, x, y, z) * gamma!(3);
+        let err_ret = mul4x4_abs(&self.elements, x, y, z) * gamma!(4);
         (ret, err_ret)
     }
 
@@ -343,7 +343,7 @@ impl Transform {
     pub fn inv_transform_pt_with_error(&self, pt: Point3D) -> (Point3D, Point3D) {
         let ret = self.inv_transform_pt(pt);
         let (x, y, z) = (pt.x, pt.y, pt.z);
-        let err_ret = mul4x4_abs(&self.inv_elements, x, y, z) * gamma!(3);
+        let err_ret = mul4x4_abs(&self.inv_elements, x, y, z) * gamma!(4);
         (ret, err_ret)
     }
 
